@@ -57,8 +57,26 @@ def handleL4Core (strict : Bool) (fuel : Nat) (head srcE inE : String) (expects 
         { model := ans, specOk := false, spec := "identical output on repeated runs (C19)", nontrivial := true } else
       let r := runCLI src (splitLines inp) (flag == "i") fuel
       let model := fmtCli r
-      if r.budget then { model := ans, specOk := true, spec := "(model budget exhausted: not compared)", nontrivial := false } else
       let realOut := (pctDecode (fieldOf ans "out")).getD ""
+      if r.budget then
+        -- the model's step budget is exhausted (a very long or endless run): trace, state and output are not
+        -- compared, but what needs no model still is — the emulator must not abort, an accepted program must
+        -- not reach an internal error, and an expectation the generator states from the property must hold
+        -- (a run the watchdog cut off is not judged: the program may simply not terminate)
+        let exitS := fieldOf ans "exit"
+        let collapse := fun (t : String) => " ".intercalate ((t.split (fun c => c == ' ' || c == '\t' || c == '\n' || c == '\r')).toList.map (·.toString) |>.filter (· != ""))
+        let holds := fun (e : String) =>
+          if e == "!refused" || e == "!accepted" then true
+          else if e.startsWith "ws:" then ((collapse realOut).splitOn (collapse (e.drop 3).toString)).length > 1
+          else (realOut.splitOn e).length > 1
+        let aborted := exitS == "101" || exitS == "signal" || exitS == "134" || (realOut.splitOn "Internal Error").length > 1
+        let failed := if exitS == "timeout" then [] else expects.filter (fun e => !holds e)
+        if aborted then
+          { model := ans, specOk := false, spec := "no abort and no internal error (run beyond the model's step budget)", nontrivial := true }
+        else if !failed.isEmpty then
+          { model := ans, specOk := false, spec := "the output must contain: " ++ failed.headD "" ++ " (run beyond the model's step budget)", nontrivial := true }
+        else { model := ans, specOk := true, spec := "(model budget exhausted: trace/state not compared)", nontrivial := false }
+      else
       let ok :=
         if r.syntaxUnpredicted then
           fieldOf ans "exit" == toString r.exit && fieldOf ans "trace" == "-" &&
